@@ -414,7 +414,13 @@ def register(PROPS, COMPONENTS):
                    "one, every destroy a constructed one (never a null / phantom / already destroyed one), every deallocate a "
                    "destroyed one (or a never-constructed one when the element constructor threw), each at most once and in this "
                    "order; after the list destructor every node and record ever allocated is freed; a handle release destroys a "
-                   "node only if it was erased. The model is tied to the source on every run: the unmodified headers run with a "
+                   "node only if it was erased. Allocation failures are part of the model (the allocator may throw at the "
+                   "registration of a handle, in push_* / emplace_*, and in erase, which allocates its zombie record BEFORE "
+                   "it touches the list): every step on such an exception path changes only the thread's pc and the mutex "
+                   "holder, and when the exception reaches the client the whole state - list, log, both ledgers, handles, "
+                   "iterators - is exactly the state before the call (C13_erase_alloc_failure, C13_push_alloc_failure, "
+                   "C13_register_alloc_failure), so nothing leaks; the client's tracing allocator injects these failures "
+                   "(`!n` / `!z` script suffixes) and the ledger oracle requires every block to be freed at the end. The model is tied to the source on every run: the unmodified headers run with a "
                    "tracing, quarantining allocator (rcu_list's Alloc parameter), a traced non-trivially-destructible element type "
                    "and int, the plain-access tap over the whole allocation arena, under a deterministic scheduler; every "
                    "primitive-level trace must be accepted by the model's step function with all model edges covered, and an "
